@@ -24,6 +24,8 @@ pub struct TreeCase {
     pub keys: Vec<K>,
     pub ops: Vec<Op>,
     pub budgets: bool,
+    /// `Tf`: large case - observe hash results and the final state only
+    pub final_only: bool,
 }
 /// `T|Tb <base> <w> <keys> <ops>`
 pub fn parse_tree_case(toks: &[&str]) -> TreeCase {
@@ -34,6 +36,7 @@ pub fn parse_tree_case(toks: &[&str]) -> TreeCase {
         keys: parse_keys(toks[3], w),
         ops: parse_ops(toks[4], w),
         budgets: toks[0] == "Tb",
+        final_only: toks[0] == "Tf",
     }
 }
 
@@ -141,6 +144,22 @@ pub fn apply_op<const N: usize>(t: &mut Tree<N>, keys: &[K], op: &Op, s: &mut St
 pub fn observe_tree<const N: usize>(c: &TreeCase) -> String {
     let mut out = String::new();
     let mut t = new_tree::<N>(c.base);
+    if c.final_only {
+        let r = catch_unwind(AssertUnwindSafe(|| {
+            let mut s = String::new();
+            for op in c.ops.iter() {
+                let mut h = String::new();
+                apply_op(&mut t, &c.keys, op, &mut h);
+                if !h.is_empty() {
+                    s.push_str(h.trim_end_matches('|'));
+                    s.push(';');
+                }
+            }
+            observe_state(&t, &mut s);
+            s
+        }));
+        return r.unwrap_or_else(|_| "PANIC".into());
+    }
     for (i, op) in c.ops.iter().enumerate() {
         if i > 0 {
             out.push(';');
